@@ -74,11 +74,11 @@ def parse_format(fmt, nargs, where):
     return out
 
 
-def translate_prints(body, kinds, where):
+def translate_prints(body, kinds, where, pattern=r'\b(?:file_?)\.print\('):
     """R22: <obj>.print("fmt", a, b, ...) -> token emits.  `kinds` maps an argument expression (regex) to its token macro."""
     n = 0
     while True:
-        m = re.search(r'\b(?:file_?)\.print\(', body)
+        m = re.search(pattern, body)
         if not m:
             break
         j = extract.match_close(body, m.end() - 1, '(', ')')
@@ -564,5 +564,49 @@ static double vp_strtod(char *p, char **end) { g_calls++; _Bool ok = g_calls == 
                    stubs=['strtod (arbitrary: parses a number or not; arbitrary value)'])
 
 
+def h_table_accepts():
+    """gsufread reads a table the writer wrote completely: the writer emits the table text T (tablen = |T| + 1, tablines = 1 + number of
+    newlines in T) followed by a newline; for every line but the last the reader must offer fgets room for the whole line, and it must
+    accept the last line.  The file is a ghost stream of tablines lines whose lengths (with their newline) sum to tablen."""
+    from specs import C14
+    fn = Fn(C14.HPP, r's = SR\.table;', 'void vp_read_table(void)', block_end=r'return ReportBadLine\(buf\);',
+            contract='__CPROVER_requires(g_rejected == 0 && g_i == 1 && g_c == 0 && SR.h.tablen >= 1 && SR.h.tablen <= (1 << 24) && SR.tablines >= 1 && SR.tablines <= SR.h.tablen && '
+                     'SR.table == g_table) '
+                     '__CPROVER_ensures(!g_rejected) '
+                     '__CPROVER_assigns(s, se, L, g_i, g_c, g_last_p, g_last_m, g_rejected, __CPROVER_object_whole(buf))',
+            subst=[(r'fgets\(s, ([^;]*?), f\)', r'vp_fgets_line(s, \1)', 1), (r'fgets\(buf, ([^;]*?), f\)', r'vp_fgets_line(buf, \1)', 1),
+                   (r'\bstrlen\(', 'vp_strlen_last(', -1), (r'return ReportEarlyEof\(\);', '{ VP_REJECT; return; }', -1), (r'return ReportBadLine\(buf\);', '{ VP_REJECT; return; }', 1)],
+            loops={0: '__CPROVER_assigns(i, s, g_i, g_c, g_last_p, g_last_m, g_rejected) '
+                      '__CPROVER_loop_invariant(1 <= i && i <= SR.tablines && g_i == i && 0 <= g_c && g_c <= SR.h.tablen && !g_rejected && se == g_table + SR.h.tablen && '
+                      '__CPROVER_same_object(s, g_table) && s == g_table + g_c && g_c + (SR.tablines - g_i + 1) <= SR.h.tablen) '
+                      '__CPROVER_decreases(SR.tablines - i)'},
+            label='mp::SOLReader2::gsufread [table lines]')
+    parts = ['''#include "mp_shim.h"
+int vp_one;
+struct { struct { long tablen; } h; long tablines; char *table; } SR;
+char *g_table; char *s, *se; size_t L; char buf[512]; int g_rejected;
+#define VP_REJECT do { g_rejected = 1; } while (0)
+/* ghost file: tablines lines, each at least its newline long, lengths summing to tablen (what the writer wrote for this header) */
+long g_i, g_c; const char *g_last_p; long g_last_m;
+static char *vp_fgets_line(char *dst, long n) {
+  long m = nondet_long();                                   /* length of the next line of the file, with its newline */
+  __CPROVER_assume(1 <= m && m <= (1 << 24) && 0 <= g_c && g_c <= (1 << 24) && 1 <= g_i && g_i <= (1 << 24));
+  if (g_i < SR.tablines) __CPROVER_assume(1 <= m && g_c + m + (SR.tablines - g_i) <= SR.h.tablen);
+  else __CPROVER_assume(m == SR.h.tablen - g_c && m >= 1 && m <= 510);     /* lemma bound: last table line of at most 509 characters */
+  __CPROVER_assert(n - 1 >= m, "the reader offers fgets room for the whole next line of a table the writer wrote");
+  g_last_p = dst; g_last_m = m; g_c += m; g_i++;
+  if (dst == buf) buf[m - 1] = 10;     /* the line ends in its newline */
+  return dst; }
+static size_t vp_strlen_last(const char *p) { __CPROVER_assert(p == g_last_p, "strlen of the line just read"); return (size_t)g_last_m; }
+''', fn, '''
+void harness(void) { vp_one = 1; SR.h.tablen = nondet_long(); SR.tablines = nondet_long(); __CPROVER_assume(SR.h.tablen >= 1 && SR.h.tablen <= (1 << 24));
+  g_table = vp_malloc((size_t)SR.h.tablen); SR.table = g_table; g_i = 1; g_c = 0; g_rejected = 0;
+  vp_read_table(); VP_REACH("normal return"); }
+''']
+    return Harness('C05.reader.table.accepts', 'C05', parts, enforce='vp_read_table', loop_contracts=True, expect_loop_obligations=1, replay=replay_writer,
+                   stubs=['fgets (ghost stream of the table lines the writer wrote)', 'strlen (length of the line just read)'],
+                   note='bound of the lemma: the last table line has at most 509 characters (the reader takes it through a 512-byte line buffer)')
+
+
 def harnesses():
-    return [h_main(), h_options_count_accepts(False), h_options_count_accepts(True), h_size_check_accepts('vars'), h_size_check_accepts('cons'), h_objno_accepts(), h_suffix_block(), h_value_writer(False), h_value_writer(True), h_visit_values('int'), h_visit_values('double'), h_counter(), h_sufhead_accepts()]
+    return [h_main(), h_table_accepts(), h_options_count_accepts(False), h_options_count_accepts(True), h_size_check_accepts('vars'), h_size_check_accepts('cons'), h_objno_accepts(), h_suffix_block(), h_value_writer(False), h_value_writer(True), h_visit_values('int'), h_visit_values('double'), h_counter(), h_sufhead_accepts()]
